@@ -7,7 +7,7 @@
    hypothesis (the shape of the model plus [result_equivariant]); it is NOT proved of the
    3.7k-line method checker, only tested under forced schedules (stream c11.sched).
    Data-race freedom in the Go memory model is outside the model (race detector, thorough tier). *)
-From Elk Require Import Model.C11_ParCheck Proofs.C11_ParCheck.
+From Elk Require Import Model.C11_ParCheck Proofs.C11_ParCheck Model.C11_PostPass Proofs.C11_PostPass.
 From Coq Require Import ZArith List Permutation Lia.
 Import ListNotations.
 
@@ -119,6 +119,91 @@ Theorem C11_nonatomic_intern_refuted :
       NoDup (syms (snd seq)).
 Proof. exact nonatomic_intern_refuted. Qed.
 Print Assumptions C11_nonatomic_intern_refuted.
+
+(* ---- post-passes over a COMPLETION-ORDERED list ----
+   The confluence theorems above speak about what the tasks do; after concurrent.Foreach the checker runs
+   passes over what they left behind.  c.methodCache.Slice holds the methods called in constant initialisers in
+   the order in which their body checks COMPLETED: by C11_confluence (a push is an append to a synchronised
+   list, like a diagnostic) two schedules give permutations of each other, nothing more.  Model/C11_PostPass.v
+   models checkMethodsInConstants / checkMethodInConstant as found ([postpass]: every root walks the call graph
+   on its own). *)
+
+(* a post-pass that handles every element of the completion-ordered list on its own - hence any post-pass that
+   is a function of the MULTISET of task results - reports the same multiset for every permutation *)
+Theorem C11_postpass_order_independent : forall (A D : Type) (f : A -> list D) (l l' : list A),
+  Permutation l l' -> Permutation (flat_map f l) (flat_map f l').
+Proof. intros A D. exact (@perroot_order_independent A D). Qed.
+Print Assumptions C11_postpass_order_independent.
+
+(* the constant-cycle pass as found is of that shape *)
+Theorem C11_constcycle_pass_order_independent : forall G fuel roots roots',
+  Permutation roots roots' -> Permutation (postpass G fuel roots) (postpass G fuel roots').
+Proof. exact postpass_order_independent. Qed.
+Print Assumptions C11_constcycle_pass_order_independent.
+
+(* a recursion guard is harmless when every root gets a FRESH visited set *)
+Theorem C11_constcycle_pass_perroot_visited : forall G fuel roots roots',
+  Permutation roots roots' -> Permutation (postpass_perroot G fuel roots) (postpass_perroot G fuel roots').
+Proof. exact postpass_perroot_order_independent. Qed.
+Print Assumptions C11_constcycle_pass_perroot_visited.
+
+(* composed with the interleaving model: a per-element post-pass over the list the tasks appended to gives the
+   same multiset of diagnostics after any two interleavings (every schedule, every limit) *)
+Theorem C11_postpass_schedule_independent : forall (D : Type) memo env (f : Z -> list D) tasks ev1 ev2 s0 r1 f1 r2 f2,
+  NoDup (syms s0) ->
+  interleaving tasks ev1 -> interleaving tasks ev2 ->
+  exec memo env ev1 s0 = (r1, f1) -> exec memo env ev2 s0 = (r2, f2) ->
+  Permutation (flat_map f (diags f1)) (flat_map f (diags f2)).
+Proof. intros D. exact (@postpass_schedule_independent D). Qed.
+Print Assumptions C11_postpass_schedule_independent.
+
+(* a post-pass with state SHARED ACROSS ROOTS is not: one visited set for all roots (the shape of a recursion
+   guard put in the wrong place).  FIRST = slow(), SECOND = quick(), both call helper, helper reads SECOND:
+   completion order [slow; quick] reports nothing, [quick; slow] reports (helper, SECOND); the pass as found
+   and the per-root guard report it in both orders.  This refutes the shared-state shape, NOT the code as found. *)
+Theorem C11_postpass_shared_state_refuted :
+  exists G fuel roots roots',
+    Permutation roots roots' /\
+    ~ Permutation (postpass_shared G fuel roots) (postpass_shared G fuel roots') /\
+    postpass_shared G fuel roots = [] /\ postpass_shared G fuel roots' = [(2, 1%Z)] /\
+    postpass G fuel roots = [(2, 1%Z)] /\ postpass G fuel roots' = [(2, 1%Z)] /\
+    postpass_perroot G fuel roots = [(2, 1%Z)] /\ postpass_perroot G fuel roots' = [(2, 1%Z)].
+Proof. exact postpass_shared_refuted. Qed.
+Print Assumptions C11_postpass_shared_state_refuted.
+
+(* ---- tasks that READ the shared failure flag (a finding about the code as found) ----
+   checkMacroDefinition (and checkMethodDefinition) compile the body they checked only when
+   Errors.IsFailure() is false at that moment, so "was this body compiled" is NOT a function of the task: with
+   tasks [appends a failure; appends nothing], task 1 is compiled iff it completes first.  For method bodies
+   nobody observes it (a rejected program is not run); a MACRO body is executed at check time by every
+   expansion, and expandMacro panics on a body that was not compiled (known finding
+   sched:crash:invalid-compiled-macro-body-nil-for). *)
+Theorem C11_compile_flag_refuted :
+  exists tasks order order',
+    Permutation order order' /\
+    compiled (snd (grun tasks order)) 1 = Some false /\
+    compiled (snd (grun tasks order')) 1 = Some true /\
+    fst (grun tasks order) = fst (grun tasks order').
+Proof. exact compile_flag_refuted. Qed.
+Print Assumptions C11_compile_flag_refuted.
+
+(* restricted to programs in which no task appends a failure, every body is compiled in every order *)
+Theorem C11_compile_flag_partial : forall tasks order,
+  (forall d, In d tasks -> d = []) ->
+  fst (grun tasks order) = [] /\ forall e, In e (snd (grun tasks order)) -> snd e = true.
+Proof. exact compile_flag_partial. Qed.
+Print Assumptions C11_compile_flag_partial.
+
+Example C11_postpass_nonvacuous :
+  postpass vs_graph 3 [0; 1] = [(2, 1%Z)] /\ postpass vs_graph 3 [1; 0] = [(2, 1%Z)] /\
+  postpass_shared vs_graph 3 [0; 1] = [] /\ postpass_shared vs_graph 3 [1; 0] = [(2, 1%Z)] /\
+  (* a diamond: two paths from the root to the reader - the pass as found reports it twice, in every order *)
+  postpass {| calls := fun m => match m with 0 => [1; 2] | 1 => [3] | 2 => [3] | _ => [] end;
+              reads := fun m => match m with 3 => [7%Z] | _ => [] end;
+              used_in := fun m => match m with 0 => [7%Z] | _ => [] end |} 4 [0] = [(3, 7%Z); (3, 7%Z)] /\
+  grun [[5%Z]; []] [0; 1] = ([5%Z], [(0, false); (1, false)]) /\
+  grun [[5%Z]; []] [1; 0] = ([5%Z], [(1, true); (0, false)]).
+Proof. vm_compute. repeat split; reflexivity. Qed.
 
 (* ---- non-vacuity: two tasks, an interleaved schedule that needs limit 2, ids really differ ---- *)
 Definition c11_tasks : list (list action) :=
